@@ -136,6 +136,54 @@ Fixpoint vote_spec (ts : layout Z) : bool :=
   end.
 Definition law_vote (ts : layout Z) (got : bool) : bool := Bool.eqb got (vote_spec ts).
 
+(* the flat vote specification IS the loop, so the law means the vote clause *)
+Lemma vote_tier_spec : forall ps hf,
+  vote_tier hf ps = if existsb rejects ps then None else Some (hf || existsb permits ps).
+Proof.
+  induction ps as [|p r IH]; intros hf; simpl.
+  - rewrite orb_false_r. reflexivity.
+  - unfold rejects at 1, permits at 1. destruct (active p); simpl; [|apply IH].
+    destruct (s_ans p <? 0); simpl; [reflexivity|]. rewrite IH.
+    destruct (existsb rejects r); [reflexivity|].
+    destruct (0 <? s_ans p), hf; simpl; reflexivity.
+Qed.
+
+Lemma vote_spec_eq : forall ts, vote_spec ts = vote_tiers ts.
+Proof.
+  induction ts as [|t r IH]; [reflexivity|]. simpl. rewrite vote_tier_spec.
+  destruct (existsb rejects t); [reflexivity|]. simpl.
+  destruct (existsb permits t); [reflexivity | exact IH].
+Qed.
+
+Lemma law_vote_model : forall ts, law_vote ts (vote_tiers ts) = true.
+Proof. intros. unfold law_vote. rewrite vote_spec_eq. apply eqb_reflx. Qed.
+
+(* soundness: what the law accepts is the answer characterised by
+   vote_first_permit_unless_reject *)
+Lemma law_vote_sound : forall ts got, law_vote ts got = true ->
+  (got = false <->
+   exists pre t post, ts = pre ++ t :: post /\
+     (forall t' p, In t' pre -> In p t' -> active p = true -> s_ans p <= 0) /\
+     (exists p, In p t /\ active p = true /\ s_ans p < 0)).
+Proof.
+  intros ts got H. unfold law_vote in H. apply eqb_prop in H. rewrite vote_spec_eq in H. subst got.
+  apply vote_first_permit_unless_reject.
+Qed.
+
+Lemma oz_eqb_refl : forall a, oz_eqb a a = true.
+Proof. destruct a; simpl; auto. apply Z.eqb_refl. Qed.
+Lemma oz_eqb_eq : forall a b, oz_eqb a b = true -> a = b.
+Proof. destruct a, b; simpl; intros H; try discriminate; auto. apply Z.eqb_eq in H. congruence. Qed.
+
+Lemma law_valid_model : forall ts, law_valid ts (job_valid ts) = true.
+Proof. intros. unfold law_valid. rewrite job_valid_spec. apply oz_eqb_refl. Qed.
+Lemma law_valid_sound : forall ts got, law_valid ts got = true -> got = hd_error (fails ts).
+Proof. intros ts got H. apply oz_eqb_eq. exact H. Qed.
+Lemma law_pred_model : forall ts, law_pred ts (predicate ts) = true.
+Proof. intros. unfold law_pred. rewrite predicate_spec. apply oz_eqb_refl. Qed.
+Lemma law_pred_sound : forall ts got, law_pred ts got = true -> got = hd_error (somes (actives ts)).
+Proof. intros ts got H. apply oz_eqb_eq. exact H. Qed.
+
 (* ---------------- orderings ---------------- *)
 Section OrderLaws.
   Variable items : list item.
@@ -250,3 +298,16 @@ Definition law_sorted {A} (less : A -> A -> bool) (out : list A) : bool :=
      | [] => true
      | x :: r => forallb (fun y => negb (less y x)) r && go r
      end) out.
+
+(* law_sorted means: no later element precedes an earlier one *)
+Lemma law_sorted_spec : forall {A} (less : A -> A -> bool) out,
+  law_sorted less out = true <-> ForallOrdPairs (fun x y => less y x = false) out.
+Proof.
+  intros A less out. induction out as [|x r IH]; simpl.
+  - split; [constructor | reflexivity].
+  - rewrite andb_true_iff, forallb_forall. split.
+    + intros [H1 H2]. constructor; [|apply IH; exact H2].
+      apply Forall_forall. intros y Hy. specialize (H1 y Hy). destruct (less y x); [discriminate|reflexivity].
+    + intros H. inversion H as [|? ? F1 F2]; subst. split; [|apply IH; exact F2].
+      intros y Hy. rewrite Forall_forall in F1. rewrite (F1 y Hy). reflexivity.
+Qed.
